@@ -1,6 +1,6 @@
 """C36 - text cursor and screen content. Spec TextScreen.tla; models TextScreen_MC / TextScreen_Sim; trace spec TextScreen_Trace."""
 import json, re, logging
-from ..session import Sess
+from ..session import Sess, MESSAGES
 from .. import core
 
 LEVEL = 'model_checking'
@@ -129,6 +129,8 @@ class Driver(object):
         e['ok'] = r[0] == 'ok'
         e['code'] = r[1] if r[0] == 'err' else 0
         e['kind'] = r[0]
+        if r[0] == 'err' and r[1] in MSG_OF:
+            e['msg'] = list(MSG_OF[r[1]])        # (the documented message table: input to the model, not an observation)
         e['obs'] = self.observe()
         if a['op'] in ('width', 'screen'):
             # the mode tables of the adapter are not part of the property: the width/mode reached are taken from the observation
@@ -204,7 +206,8 @@ def random_history(d, rng, adapter, nsteps):
         d.do(a)
 
 
-KEEP = ('op', 's', 'nl', 'r', 'c', 't', 'b', 'n', 'm', 'nw', 'nmode', 'fresh', 'ok', 'code', 'obs')
+KEEP = ('op', 's', 'nl', 'r', 'c', 't', 'b', 'n', 'm', 'nw', 'nmode', 'fresh', 'ok', 'code', 'msg', 'obs')
+MSG_OF = {code: text for text, code in MESSAGES.items()}
 
 
 def run(ctx):
@@ -282,6 +285,8 @@ def run(ctx):
             ctx.reject('C36 internal error on %s' % e['stmt'], key={'clause': 'internal'}, data=e)
     ctx.cov['events_scrolling'] = nscroll
     ctx.cov['events_refused'] = nerr
+    ctx.cov['refused_events_with_message_judged'] = sum(1 for e in events if 'msg' in e)
+    ctx.cov['refused_on_bottom_window_row'] = sum(1 for e in events if 'msg' in e and e['op'] == 'locate' and e.get('r') == e['obs']['h'])
     ctx.cov['events_in_overflow_position'] = novf
     for e in (events[5], events[len(events) // 2], events[-1]):
         ctx.sample({'stmt': e['stmt'][:120], 'ok': e['ok'], 'code': e['code'],
